@@ -266,6 +266,8 @@ class Normalizer:
         for f in list(repo.funcs.values()):
             self._replace_node(f, self.desugar_next(f))
         for f in list(repo.funcs.values()):
+            self._replace_node(f, self.unpack_records(f))
+        for f in list(repo.funcs.values()):
             self._replace_node(f, self.positional(f))
         for f in list(repo.funcs.values()):
             self._replace_node(f, self.propagate(f))
@@ -1727,6 +1729,83 @@ class Normalizer:
                 hit = True
                 self.log["positional"].append(f"{f.qual}:{n.lineno} {unparse(n.func)}")
         return new if hit else None
+
+    # ------------------------------------------------------------------------------------------ N24
+    def _class_of_expr(self, f: Func, e: ast.expr) -> t.Optional[Cls]:
+        """Package class of `name` (annotated parameter / annotated local) or `self.attr` (annotated in the class body, or
+        assigned in __init__ from an annotated parameter); Optional[...] is looked through."""
+        def ann_cls(ann: t.Optional[ast.expr], mod: Mod) -> t.Optional[Cls]:
+            if ann is None:
+                return None
+            if isinstance(ann, ast.Constant) and isinstance(ann.value, str):
+                try:
+                    ann = ast.parse(ann.value, mode="eval").body
+                except SyntaxError:
+                    return None
+            if isinstance(ann, ast.Subscript) and unparse(ann.value).endswith("Optional"):
+                ann = ann.slice
+            if isinstance(ann, ast.Name):
+                r = self.repo.resolve_name(ann.id, mod)
+                return r if isinstance(r, Cls) else None
+            return None
+
+        if isinstance(e, ast.Name):
+            for a in _params(f.node):
+                if a.arg == e.id:
+                    return ann_cls(a.annotation, f.mod)
+            for n in _walk_no_scopes(f.node):
+                if isinstance(n, ast.AnnAssign) and isinstance(n.target, ast.Name) and n.target.id == e.id:
+                    return ann_cls(n.annotation, f.mod)
+            return None
+        if isinstance(e, ast.Attribute) and isinstance(e.value, ast.Name) and e.value.id == "self" and f.cls is not None:
+            for c in f.cls.mro():
+                for st in c.node.body:
+                    if isinstance(st, ast.AnnAssign) and isinstance(st.target, ast.Name) and st.target.id == e.attr:
+                        return ann_cls(st.annotation, c.mod)
+                init = c.methods.get("__init__")
+                if init is not None:
+                    for n in ast.walk(init.node):
+                        if isinstance(n, ast.AnnAssign) and unparse(n.target) == f"self.{e.attr}":
+                            return ann_cls(n.annotation, c.mod)
+                        if isinstance(n, ast.Assign) and len(n.targets) == 1 and unparse(n.targets[0]) == f"self.{e.attr}" and isinstance(n.value, ast.Name):
+                            for a in _params(init.node):
+                                if a.arg == n.value.id:
+                                    return ann_cls(a.annotation, c.mod)
+        return None
+
+    def unpack_records(self, f: Func) -> t.Optional[FuncNode]:
+        """a, b, c = X   with X a name / self attribute whose class is a NamedTuple of the package with exactly that many
+        fields   ->   a = X.f1; b = X.f2; c = X.f3   (positional unpacking of a record is reading its fields in order)."""
+        hit = [False]
+
+        def block(stmts: t.List[ast.stmt]) -> t.List[ast.stmt]:
+            out: t.List[ast.stmt] = []
+            for s_ in stmts:
+                if not isinstance(s_, (ast.FunctionDef, ast.AsyncFunctionDef, ast.ClassDef)):
+                    for fld in ("body", "orelse", "finalbody"):
+                        blk = getattr(s_, fld, None)
+                        if isinstance(blk, list) and blk and isinstance(blk[0], ast.stmt):
+                            setattr(s_, fld, block(blk))
+                    if isinstance(s_, ast.Try):
+                        for h in s_.handlers:
+                            h.body = block(h.body)
+                if isinstance(s_, ast.Assign) and len(s_.targets) == 1 and isinstance(s_.targets[0], ast.Tuple) and _is_pure_path(s_.value) and not any(isinstance(x, ast.Starred) for x in s_.targets[0].elts):
+                    cls = self._class_of_expr(f, s_.value)
+                    if cls is not None and any(x.endswith("NamedTuple") for x in cls.ext_bases):
+                        fields = [p_.name for p_ in cls.init_params()]
+                        tg = s_.targets[0].elts
+                        names = {x.id for x in ast.walk(s_.value) if isinstance(x, ast.Name)}
+                        if len(fields) == len(tg) and not any(isinstance(x, ast.Name) and x.id in names for x in tg):
+                            for el, fl in zip(tg, fields):
+                                out.append(ast.copy_location(ast.Assign(targets=[el], value=ast.Attribute(value=copy.deepcopy(s_.value), attr=fl, ctx=ast.Load())), s_))
+                            hit[0] = True
+                            continue
+                out.append(s_)
+            return out
+
+        new = copy.deepcopy(f.node)
+        new.body = block(list(new.body))
+        return new if hit[0] else None
 
     # ------------------------------------------------------------------------------------------ N3
     def propagate(self, f: Func) -> t.Optional[FuncNode]:
